@@ -32,6 +32,12 @@ CLAIMS.update({
  "C03": ("model_checking", PARTXT + "C03: every uninterrupted run must be exact with the oracle's optimum.", "6.C03", "deterministic scheduling of the real threads + TLA+ trace validation against ParBnB/DPModel"),
  "C04": ("model_checking", PARTXT + "C04: deadlock = quiescent scheduler state with parked workers and nobody runnable (definitive); worker panic, livelock (step budget), complete-only-when-idle and never-wait-when-nothing-in-progress are checked on every run.", "6.C04", "deterministic scheduling with deadlock detection + TLA+ trace validation of the protocol invariants"),
 })
+CBTXT = "The recording wrappers log every call into user code; TLC replays the stream through TraceCB.tla, which rebuilds the diagram (layers, node identities in creation order, arcs and costs, last merge, longest-path values) from the callbacks alone and checks each call against that protocol state and against DPModel (dst = Trans(src,d), d in Dom). "
+CLAIMS.update({
+ "C12": ("model_checking", CBTXT + "C12 tags: next_variable depth, stale variable / state outside layer for domains, decision outside domain, cost args differing from the transition, merge of < 2 or foreign states, relax with wrong merged / dst / arc / cost. Isolated compilations and compilations made during real solver runs (cache, dominance active).", "6.C12", "TLA+ protocol specification (TraceCB.tla) validated on recorded callback streams"),
+ "C13": ("model_checking", CBTXT + "C13: for all-impacted models the number of for_each_in_domain calls per layer is compared with max_width (restricted: every layer; relaxed: from the second layer below the root); the width combinators are evaluated on an exhaustive grid against Width.tla.", "6.C13", "TLA+ trace validation of per-layer expansion counts + exhaustive grid for the width combinators"),
+ "C20": ("model_checking", CBTXT + "C20: every diagram is drawn for all 64 flag combinations under catch_unwind, a small DOT reader turns each drawing into an event, and TLC compares it with the rebuilt diagram: each non-hidden node exactly once, hidden nodes = deleted nodes, edge set = inbound arcs of drawn nodes with decision and cost, value labels, terminal node and its edges iff the last layer is non-empty, clusters only with the flags.", "6.C20", "TLA+ reference of the expected drawing evaluated by TLC on parsed DOT output"),
+})
 REASONS = {}
 checks = []
 for p in props:
